@@ -240,6 +240,13 @@ def sub_programs():
         ([while_("True", [M, A0, if_("self.in1", [RETURN])])],),
         ([M], [A1, M]),
     ]
+    # a helper that is left on two paths of the same state while a third path stays inside its loop
+    W2 = [while_("True", [A0, if_("self.in1", [M, RETURN]), if_("self.in2", [vinc(), RETURN])])]
+    out.append(([M, sub(0), M, AT, M], [W2]))
+    out.append(([sub(0), M, A1, M], [W2]))
+    out.append(([while_("self.in2", [M, sub(0), vinc()]), M], [W2]))
+    W3 = [A0, if_("self.in1", [RETURN]), M, AT, if_("self.in2", [RETURN], [M])]
+    out.append(([M, sub(0), M, sub(0), M], [W3]))
     for subs in subs_list:
         out.append(([sub(0), M], subs))
         out.append(([M, sub(0), M, sub(0)], subs))
